@@ -39,6 +39,7 @@ fn main() {
             let precs: Vec<usize> = optc::<String>(&argv, "--precs").unwrap().split(',').map(|x| x.parse().unwrap()).collect();
             drive::drive_ans(w, s, &precs, seed, n as usize, &optc::<String>(&argv, "--trace").unwrap())
         }
+        "drive_bits" => bits_replay::drive_bits(seed, n as usize, &optc::<String>(&argv, "--trace").unwrap()),
         "drive_huffman" => symbol_replay::drive_huffman(seed, &optc::<String>(&argv, "--trace").unwrap()),
         "selftest_tiny" => selftest::selftest_tiny(),
         "drive_models" => drive_models::drive_models(seed, n as usize, &optc::<String>(&argv, "--trace").unwrap()),
